@@ -33,7 +33,8 @@ inductive Op where
   | update (c k : String) (exp : Nat) (steps : List UpdStep)
   | wuwx (c k : String) (names : List String) (steps : List WuStep) (sets : Sets) (dels : Option (List String))
       (macros : Macros) (cbExp : Option Nat) (pe : Bool)
-  | startFeed (id c : String) (bf : Backfill) (dump keysOnly : Bool)
+  | startFeed (id c : String) (bf : Backfill) (dump keysOnly : Bool) (pfx : String := "")
+  | stopFeed (id : String)
   | drain (id : String)
   | fire
   | rb (c k : String) (names : List String)
@@ -124,7 +125,8 @@ def step (s : State) : Op → State × Resp
   | .update c k exp steps => let r := opUpdate 25 s c k exp steps 0 []; (r.1, .out r.2)
   | .wuwx c k names steps sets dels m cbExp pe =>
     let r := opWuwx 25 s c k names steps sets dels m cbExp pe [] 0 []; (r.1, .out r.2)
-  | .startFeed id c bf dump ko => let r := opStartFeed s id c bf dump ko; (r.1, .out r.2)
+  | .startFeed id c bf dump ko pfx => let r := opStartFeed s id c bf dump ko pfx; (r.1, .out r.2)
+  | .stopFeed id => let r := opStopFeed s id; (r.1, .out r.2)
   | .drain id => let r := opDrain s id; (r.1, .items r.2)
   | .fire => let s' := opFireExpiry s; (s', .next s'.expNext)
   | .rb c k names => (s, .read (readBack s c k names))
